@@ -83,7 +83,24 @@ def witness_F14():
     return abs(Xt[0, j] - 36.0) < 1e-9 and abs(X[0, 1] * X[0, 2] ** 2 - Xt[0, j]) > 1.0
 
 
-WITNESS = {'F11': witness_F11, 'F12': witness_F12, 'F14': witness_F14}
+def witness_F9():
+    import warnings
+    import pykoop.lmi_regressors as L
+    rng = np.random.default_rng(0)
+    rows = []
+    x = np.array([1.0, -0.5])
+    for k in range(14):
+        u = rng.normal(size=1)
+        rows.append([0.0] + list(x) + list(u))
+        x = 0.5 * x + 0.3 * u
+    with warnings.catch_warnings():
+        warnings.simplefilter('ignore')
+        reg = L.LmiEdmdDissipativityConstr(max_iter=2, solver_params={'solver': 'cvxopt'})
+        reg.fit(np.array(rows), n_inputs=1, episode_feature=True)
+    return not np.any(reg.coef_)
+
+
+WITNESS = {'F11': witness_F11, 'F12': witness_F12, 'F14': witness_F14, 'F9': witness_F9}
 
 
 def report_known(res, pid):
